@@ -545,6 +545,9 @@ func finish(c *Check, tier string, parts []*Partial, wall time.Duration) int {
 	if m.States == 0 {
 		m.States = m.Distinct
 	}
+	if m.Distinct == 0 {
+		m.Distinct = m.States
+	}
 	if m.Transitions < m.Evaluations {
 		m.Transitions = m.Evaluations
 	}
